@@ -14,12 +14,13 @@ type GraphOpts struct {
 	CycleBoost  bool // raise p(self / forward references) so that cycles of every kind are frequent
 	MaxRel      int  // relations per object type (default 4)
 	SmallModels bool // fewer types/relations (used where orders are enumerated exhaustively)
+	Big         bool // up to 4 object types x 6 relations, operator nesting one level deeper (thorough tier)
 }
 
 var (
 	gTermTypes = []string{"user", "emp", "bot", "svc"}
-	gObjTypes  = []string{"doc", "fld", "grp"}
-	gRelNames  = []string{"a", "b", "c", "d", "e"}
+	gObjTypes  = []string{"doc", "fld", "grp", "org"}
+	gRelNames  = []string{"a", "b", "c", "d", "e", "f", "g"}
 )
 
 type graphCtx struct {
@@ -43,6 +44,9 @@ func GraphModel(t *rapid.T, o GraphOpts) *Model {
 	}
 	if o.WildBoost {
 		maxT = 4 // wildcard lists of length >= 3 need enough public types
+	}
+	if o.Big {
+		maxO, maxRel = 4, 6
 	}
 	nTerm := rapid.IntRange(1, maxT).Draw(t, "nTerm")
 	nObj := rapid.IntRange(1, maxO).Draw(t, "nObj")
@@ -152,7 +156,11 @@ func (c *graphCtx) pickRel() string {
 
 func (c *graphCtx) rewrite(depth int) *Rewrite {
 	k := rapid.IntRange(0, 11).Draw(c.t, "kind")
-	if depth >= 2 && k > 6 {
+	maxDepth := 2
+	if c.o.Big {
+		maxDepth = 3
+	}
+	if depth >= maxDepth && k > 6 {
 		k %= 7
 	}
 	switch {
